@@ -513,6 +513,17 @@ def run(ck: Check):
                 raise
             except Exception as e:  # noqa: BLE001
                 ck.mismatch("construction routes could not be evaluated", {"error": repr(e)[:300]})
+        mutation_failures = []
+        for i in range(8 if thorough else 2):
+            try:
+                case = G.gen_case(rng, rng.choice([3, 4]), subst=rng.choice(["JC69", "HKY", "LG"]), clock="strict", nsites=4, tip_states=(i % 2 == 1))
+                RT.check_mutations(ck, case, rng, mutation_failures)
+            except InfraError:
+                raise
+            except Exception as e:  # noqa: BLE001
+                ck.mismatch("order mutations could not be evaluated", {"error": repr(e)[:300]})
+        for f in mutation_failures:
+            route_failures.append({"case": f["case"], "route": "order-mutation:" + f["mutation"], "baseline": f["oracle"], "value": f.get("value"), "error": f.get("error")})
         # ---- REGIMES (dtype, grad mode, immutability, repeatability, deepcopy, device move, batches, special inputs,
         #      options, failure paths): see harness/c01_regimes.py
         try:
@@ -694,7 +705,10 @@ def replay(path: str) -> int:
 
         with tempfile.TemporaryDirectory() as tmp:
             try:
-                m = RT.build_route(rt["case"], rt["route"], rng, tmp)
+                if rt["route"].startswith("order-mutation:"):
+                    m = RT.mutation_route(rt["case"], rt["route"].split(":", 1)[1], rng)
+                else:
+                    m = RT.build_route(rt["case"], rt["route"], rng, tmp)
                 v = impl_value(m)
                 pth = impl_path(m, len(rt["case"]["taxa"]))
             except Exception as e:  # noqa: BLE001
